@@ -275,6 +275,12 @@ def m_sum(x, axis=None, **k):
 def m_count_nonzero(x, axis=None, **k):
     if isinstance(x, S):
         return S(num(boo(x.e)))
+    if isinstance(x, EA):
+        # explicit array: which elements are non-zero is decided by forking, the count is then a concrete number
+        if x.ndim != 1 or axis not in (None, 0, -1):
+            raise Unsupported("count_nonzero of a multi-axis explicit array")
+        nz = EA(np.frompyfunc(lambda q: S(sp.Ne(num(sym._lift_s(q).e), 0)), 1, 1)(x.a))
+        return int(_INTERP[0].concrete_mask(nz).sum())
     if axis is not None:
         raise Unsupported("count_nonzero with axis")
     p = boo(x.e)
